@@ -26,6 +26,8 @@ Record policy := {
   table_check : list N -> result unit;
   (* block ends right after four equal bytes: error (true) or plain end (false) *)
   runlen_strict : bool;
+  (* at most this many selectors are used for decoding groups (the format: 18001) *)
+  sel_clamp : N;
 }.
 
 (* ---- block header pieces ---------------------------------------------------------------- *)
@@ -140,7 +142,7 @@ Definition read_block (pol : policy) (fuel : nat) : prog raw_block :=
   _ <- guard (negb (ns =? 0)) ErrGroups ;;
   selm <- repeat_prog (N.to_nat ns) (read_unary (N.to_nat nt) 0) ;;
   tables <- repeat_prog (N.to_nat nt) (read_table pol fuel alpha) ;;
-  let sels := unmtf_selectors [0; 1; 2; 3; 4; 5] (firstn (N.to_nat sel_clamp_value) selm) in
+  let sels := unmtf_selectors [0; 1; 2; 3; 4; 5] (firstn (N.to_nat (sel_clamp pol)) selm) in
   mtfv <- read_groups pol tables (N.of_nat alpha - 1) sels ;;
   Ret {| rb_rand := negb (rnd =? 0); rb_idx := idx; rb_used := used; rb_mtfv := mtfv;
          rb_ntrees := nt; rb_nsel := ns; rb_tables := tables |}.
